@@ -19,6 +19,9 @@ int SimLink::pendingBytes(int dir) const
 void SimLink::write(int from, const QByteArray &data)
 {
     wire.append(WireRecord { from, encrypted, data, g_now_ms });
+    if (onWrite) {
+        onWrite(from, data);
+    }
     if (dead || !up || closed[from]) {
         return;
     }
@@ -63,6 +66,9 @@ void SimLink::deliver(int dir, int nbytes)
         }
     }
     if (to && !out.isEmpty()) {
+        if (onDeliver) {
+            onDeliver(dir, out);
+        }
         to->linkDeliver(out);
     }
 }
